@@ -36,8 +36,10 @@ func H_C19_xmlfile() {
 	name := vTempFile("x")
 	indent := vChoose(2) == 1
 	var werr error
+	pfx, ind := "", ""
 	if indent {
-		werr = ms.XmlFileIndent(name, "", []string{" ", "  "}[vChoose(2)])
+		pfx, ind = []string{"", " "}[vChoose(2)], []string{" ", "  "}[vChoose(2)]
+		werr = ms.XmlFileIndent(name, pfx, ind)
 	} else {
 		werr = ms.XmlFile(name)
 	}
@@ -53,11 +55,11 @@ func H_C19_xmlfile() {
 			vAssert(vDeepEq(map[string]interface{}(got[i].M), map[string]interface{}(want)), "xml file: each Map read back equals the Map its own encoding decodes to, in order (raw)")
 			var enc []byte
 			if indent {
-				enc, _ = ms[i].XmlIndent("", " ")
+				enc, _ = ms[i].XmlIndent(pfx, ind)
 			} else {
 				enc = x
 			}
-			_ = enc
+			vAssert(vContainsStr(string(got[i].R), string(enc)), "xml file: the raw value contains the Map's own encoding with the same prefix and indent")
 			back, berr := NewMapXml(got[i].R)
 			vAssert(berr == nil && vDeepEq(map[string]interface{}(back), map[string]interface{}(want)), "xml file: the raw value contains the document's text")
 		}
@@ -123,7 +125,7 @@ func H_C19_damaged() {
 	} else {
 		j, _ := good.Json()
 		first = string(j)
-		second = []string{"{\"b\":", "{\"b\":x}", "{\"b\":1"}[vChoose(3)]
+		second = []string{"{\"b\":", "{\"b\":x}", "{\"b\":1", "\"b\":2}{\"c\":3}", "}{\"c\":3}", " } {\"c\":3}"}[vChoose(6)]
 	}
 	switch vChoose(3) {
 	case 0: // missing file
